@@ -7,17 +7,16 @@ import IdpyVerif.Model.Subject
 namespace Idpy.Props.C18
 open Idpy Idpy.Subject
 
-/-- the four views publish the grant's sub — provided no user attribute named `sub` is released
-    at the point (the JWT access token and introspection let user claims overwrite it) -/
-theorem sub_consistent (sub : Str) :
-    (views sub none).idToken = sub ∧ (views sub none).userinfo = sub ∧
-    (views sub none).jwtAccess = sub ∧ (views sub none).introspection = sub := by
-  simp [views]
+/-- the four views publish the grant's sub — whatever the user directory holds under the name `sub`
+    and whether or not the claims rules release it at the point -/
+theorem sub_consistent (sub : Str) (userSubAttr : Option Str) :
+    (views sub userSubAttr).idToken = sub ∧ (views sub userSubAttr).userinfo = sub ∧
+    (views sub userSubAttr).jwtAccess = sub ∧ (views sub userSubAttr).introspection = sub := by
+  simp [views, addIfAbsent]
 
-/-- the hypothesis is forced: a user attribute `sub` that is released replaces the subject in
-    the JWT access token and in introspection (observation recorded in DESIGN section 7) -/
-theorem sub_overwritten_counterexample : (views [1] (some [2])).jwtAccess ≠ (views [1] (some [2])).idToken := by
-  decide
+/-- a released user attribute `sub` is still not lost where there is no subject to protect (the rule
+    is "add if absent", not "drop") -/
+example : addIfAbsent none (some [2]) = some [2] := rfl
 
 /-- stable across logins: the subject is a function of (type, user, sector, salt) -/
 theorem sub_stable (H : Str → Str) (c : Client) (uid salt f1 f2 : Str) (h : typeOf c ≠ .ephemeral) :
